@@ -187,6 +187,10 @@ impl<R: Read + Seek> PMTiles<R> {
     /// # Errors
     /// See [`get_tile_by_id`](Self::get_tile_by_id) for details on possible errors.
     pub fn get_tile(&mut self, x: u64, y: u64, z: u8) -> Result<Option<Vec<u8>>> {
+        if !Self::is_tile_coordinate(x, y, z) {
+            return Ok(None);
+        }
+
         self.get_tile_by_id(tile_id(z, x, y))
     }
 }
@@ -220,11 +224,21 @@ impl<R: AsyncRead + AsyncReadExt + Send + Unpin + AsyncSeekExt> PMTiles<R> {
     /// # Errors
     /// See [`get_tile_by_id_async`](Self::get_tile_by_id_async) for details on possible errors.
     pub async fn get_tile_async(&mut self, x: u64, y: u64, z: u8) -> Result<Option<Vec<u8>>> {
+        if !Self::is_tile_coordinate(x, y, z) {
+            return Ok(None);
+        }
+
         self.get_tile_by_id_async(tile_id(z, x, y)).await
     }
 }
 
 impl<R> PMTiles<R> {
+    /// Returns `true` if `x` and `y` lie inside the grid of zoom level `z` and `z` is a
+    /// zoom level whose tile ids fit into 64 bits (0 to 31).
+    const fn is_tile_coordinate(x: u64, y: u64, z: u8) -> bool {
+        z < 32 && x < (1u64 << z) && y < (1u64 << z)
+    }
+
     fn parse_meta_data(val: JSONValue) -> Result<JSONMap<String, JSONValue>> {
         let JSONValue::Object(map) = val else {
             return Err(std::io::Error::new(
